@@ -132,6 +132,15 @@ def run_case(ctx, drv, case, graph_corr=True):
             except Exception:  # noqa: BLE001
                 pass
         cr = pl.calibrate_all(q, case.data) if q.need_calibration else None
+        if cr is not None and getattr(case, "unsigned_stats", None):
+            # subgraphs that no signature exports (bodies of control flow, or a plain multi-subgraph file) cannot be calibrated through
+            # the model itself: their statistics come from the same graph WITH its signature (same tensor names), as a user would do
+            full_mb, sig, samples = case.unsigned_stats
+            qf = quantizer.Quantizer(full_mb, copy.deepcopy(q.get_quantization_recipe()))
+            extra = qf.calibrate(samples, signature_key=sig)
+            for name, v in extra.items():
+                if v and not cr.get(name):
+                    cr[name] = v
     except Exception as e:  # noqa: BLE001
         return {"status": "raise", "exc": type(e).__name__, "stage": "calibrate", "q": q}
     res["cr"] = cr
